@@ -2,6 +2,7 @@ import Req.Lemmas.C06Recv
 import Req.Lemmas.C06Acks
 import Req.Lemmas.C06Credit
 import Req.Lemmas.C06Pump
+import Req.Lemmas.C06Extra
 /-!
 C06 — HTTP/2 connections respect everything the peer advertised: property theorems.
 
@@ -36,9 +37,12 @@ theorem conn_conforms (cfg : Cfg) (hfix : cfg.fixes = Fixes.all) (hcfg : cfg.ok)
   unfold history run
   obtain ⟨m, r, h1, h2, h3, _⟩ := joint_runFrom ops hops (preface_run cfg) (rpreface_run cfg hfix hcfg)
     (sinv_init cfg hfix) (rinv_init cfg hfix hcfg)
+  obtain ⟨q0, hq0, hq0s⟩ := push_run_clients Push.init rfl (newConn cfg).2
+  obtain ⟨h4, q, h5⟩ := extra_runFrom ops (st := (newConn cfg).1) (ping_run_pf Ping.init (pf_newConn cfg)) hq0
+    (fun hx => by rw [hq0s] at hx; cases hx)
   unfold Monitor
-  rw [h1, h2]
-  simp [Send.final, h3.pending, h3.hdr]
+  rw [h1, h2, h4, h5]
+  simp [Send.final, h3.pending, h3.hdr, Ping.final, Ping.init]
 
 /-- a default connection, three uploads around the window and frame boundaries, the peer
 changing SETTINGS_INITIAL_WINDOW_SIZE down to a negative window and up again: the hypotheses
@@ -159,7 +163,8 @@ theorem credit_conservation (cfg : Cfg) (hfix : cfg.fixes = Fixes.all) (ops : Li
     (st.connIn.avail + st.connIn.unsent + sumBuffered st.streams = connInflowInit cfg.connFlow ∧
      Fresh st.connIn ∧
      ∀ s ∈ st.streams, Fresh s.inflow ∧
-       (s.broken = false → s.inflow.avail + s.inflow.unsent + s.buffered = streamInflow0 cfg)) := by
+       (s.broken = false → s.readErr = false →
+         s.inflow.avail + s.inflow.unsent + s.buffered = streamInflow0 cfg)) := by
   have hrun : run cfg ops = runFrom (newConn cfg).1 ((newConn cfg).2.map Event.c) ops := rfl
   rw [hrun]
   have := k_runFrom (T := connInflowInit cfg.connFlow) (S := streamInflow0 cfg) ops hops (preface_run cfg)
@@ -184,12 +189,13 @@ theorem no_permanent_stall (cfg : Cfg) (hfix : cfg.fixes = Fixes.all) (ops : Lis
 
 theorem no_permanent_stall_stream (cfg : Cfg) (hfix : cfg.fixes = Fixes.all) (ops : List Op)
     (hops : ∀ op ∈ ops, op.ok) (hp : (run cfg ops).1.panicked = false)
-    (s : Stream) (hs : s ∈ (run cfg ops).1.streams) (hb : s.broken = false) (hz : s.buffered = 0) :
+    (s : Stream) (hs : s ∈ (run cfg ops).1.streams) (hb : s.broken = false) (hre : s.readErr = false)
+    (hz : s.buffered = 0) :
     streamInflow0 cfg < 2 * s.inflow.avail ∨ s.inflow.avail = streamInflow0 cfg := by
   rcases credit_conservation cfg hfix ops hops with h | ⟨_, _, h3⟩
   · rw [hp] at h; cases h
   · obtain ⟨hf, hc⟩ := h3 s hs
-    have hc' := hc hb
+    have hc' := hc hb hre
     rw [hz] at hc'
     rcases hf with h0 | ⟨_, hlt⟩
     · right; omega
@@ -223,8 +229,8 @@ def opsUpload : List Op := [.peer (.settings []), .openStream 54 100000 true, .f
 
 /-- unchanged code: a peer that advertised nothing receives a 65535-byte DATA frame -/
 theorem caller_max_frame_size_counterexample :
-    Monitor (history (run (cfgBigFrame ⟨false, true, true, true⟩) opsUpload)) = false ∧
-    (history (run (cfgBigFrame ⟨false, true, true, true⟩) opsUpload)).getLast? = some (.c (.data 1 65535 false)) ∧
+    Monitor (history (run (cfgBigFrame { Fixes.all with maxFrame := false }) opsUpload)) = false ∧
+    (history (run (cfgBigFrame { Fixes.all with maxFrame := false }) opsUpload)).getLast? = some (.c (.data 1 65535 false)) ∧
     Monitor (history (run (cfgBigFrame Fixes.all) opsUpload)) = true := by decide
 
 /-- a fingerprint that advertises a 6 MiB stream window and 16 MiB frames -/
@@ -241,7 +247,7 @@ def opsDownload : List Op :=
 /-- unchanged code: the client closes the connection (FLOW_CONTROL_ERROR) on a peer that stayed
 inside the advertised window; repaired code: it does not -/
 theorem stream_receive_window_counterexample :
-    (run (cfgBigWindow ⟨true, false, true, true⟩) opsDownload).1.closed = true ∧
+    (run (cfgBigWindow { Fixes.all with streamInflow := false }) opsDownload).1.closed = true ∧
     (run (cfgBigWindow Fixes.all) opsDownload).1.closed = false := by decide
 
 /-- a PRIORITY fingerprint that names an even stream -/
@@ -253,8 +259,8 @@ def opsOpen : List Op := [.peer (.settings []), .openStream 51 0 true]
 
 /-- unchanged code: the first request uses stream 4 -/
 theorem even_stream_id_counterexample :
-    Monitor (history (run (cfgPrioEven ⟨true, true, false, true⟩) opsOpen)) = false ∧
-    (history (run (cfgPrioEven ⟨true, true, false, true⟩) opsOpen)).getLast? = some (.c (.headers 4 51 true true)) ∧
+    Monitor (history (run (cfgPrioEven { Fixes.all with prioIds := false }) opsOpen)) = false ∧
+    (history (run (cfgPrioEven { Fixes.all with prioIds := false }) opsOpen)).getLast? = some (.c (.headers 4 51 true true)) ∧
     (history (run (cfgPrioEven Fixes.all) opsOpen)).getLast? = some (.c (.headers 5 51 true true)) := by decide
 
 /-- a header priority (all three browser presets) and a header block of 20000 bytes -/
@@ -266,8 +272,8 @@ def opsBigHeaders : List Op := [.peer (.settings []), .openStream 20000 0 true]
 
 /-- unchanged code: a HEADERS frame of 16389 bytes for a peer whose limit is 16384 -/
 theorem headers_priority_frame_size_counterexample :
-    Monitor (history (run (cfgHdrPrio ⟨true, true, true, false⟩) opsBigHeaders)) = false ∧
-    (history (run (cfgHdrPrio ⟨true, true, true, false⟩) opsBigHeaders)).drop 4 =
+    Monitor (history (run (cfgHdrPrio { Fixes.all with hdrPrio := false }) opsBigHeaders)) = false ∧
+    (history (run (cfgHdrPrio { Fixes.all with hdrPrio := false }) opsBigHeaders)).drop 4 =
       [.c (.headers 1 16389 true false), .c (.continuation 1 3616 true)] ∧
     (history (run (cfgHdrPrio Fixes.all) opsBigHeaders)).drop 4 =
       [.c (.headers 1 16384 true false), .c (.continuation 1 3621 true)] := by decide
